@@ -265,6 +265,13 @@ def negC : F64 → Cls
   | .ninf => .pinf
   | .fin _ => .fin
 
+/-- Exact negation of a value (flips the sign bit). -/
+def negF : F64 → F64
+  | .nan => .nan
+  | .pinf => .ninf
+  | .ninf => .pinf
+  | .fin k => .fin (-k)
+
 /-- `±inf · y`. -/
 def infMul (neg : Bool) : F64 → Cls
   | .nan => .nan
